@@ -105,6 +105,11 @@ Fixpoint expand_aux (locals : list (str * str)) (skip : nat) (s : str) : str :=
 Definition policy_suffix : str := lit ":policy".
 Definition appendpath : str := lit "appendpath".
 
+Definition cDQ : N := 34.  Definition cSQ : N := 39.  Definition cNL : N := 10.
+Definition wspace_plus : str := [32; 13; 10; 11; 9; 39; 34].
+Definition q3d : str := [34; 34; 34].
+Definition q3s : str := [39; 39; 39].
+
 Section Env.
   (* dromedary.urlutils.join(value, extra_path) and urlutils.basename *)
   Variable url_join : str -> str -> str.
@@ -218,12 +223,26 @@ Section Env.
     first_some (fun s => ls_get s name) (get_sections st location).
 
   (* ---- value side ------------------------------------------------------------------ *)
-  (* IniFileStore.unquote -> ConfigObj._unquote (skipped for the empty string) *)
-  Definition unquote (v : str) : str :=
+  (* ConfigObj._unquote: one matching quote character on each side (skipped for the
+     empty string).  This alone was IniFileStore.unquote before /repo 4293772. *)
+  Definition unquote_old (v : str) : str :=
     match v with
     | [] => []
     | c :: _ => if (c =? last v 0) && ((c =? 34) || (c =? 39)) then removelast (tl v) else v
     end.
+
+  (* value[3:-3] *)
+  Definition strip3 (v : str) : str := rev (skipn 3 (rev (skipn 3 v))).
+  Definition triple_wrapped (q3 v : str) : bool := prefixb q3 v && suffixb q3 v.
+
+  (* IniFileStore.unquote (since 4293772):
+       for triple in (3 double quotes, 3 single quotes):
+           if len(value) >= 6 and value.startswith(triple) and value.endswith(triple):
+               return value[3:-3]
+       value = self._config_obj._unquote(value)                                      *)
+  Definition unquote (v : str) : str :=
+    if (6 <=? length v)%nat && (triple_wrapped q3d v || triple_wrapped q3s v)
+    then strip3 v else unquote_old v.
 
   (* Stack.get(name, expand=False) of an unregistered option in a LocationStack:
      location sections, then the DEFAULT section of breezy.conf ([glob]), then unquote *)
@@ -246,10 +265,6 @@ Section Env.
 End Env.
 
 (* ---- ConfigObj._quote(value) with list_values=True, multiline=True (environment) ---- *)
-Definition cDQ : N := 34.  Definition cSQ : N := 39.  Definition cNL : N := 10.
-Definition wspace_plus : str := [32; 13; 10; 11; 9; 39; 34].
-Definition q3d : str := [34; 34; 34].
-Definition q3s : str := [39; 39; 39].
 
 Definition need_triple (v : str) : bool := (memb cSQ v && memb cDQ v) || memb cNL v.
 
@@ -276,6 +291,10 @@ Definition mem_raw (v : str) : option str := cobj_quote v.
 Definition set_get_mem (v : str) : option str :=
   match mem_raw v with Some r => Some (unquote r) | None => None end.
 
+(* the same with the unquote of before 4293772 (kept for the statement about the OLD code) *)
+Definition set_get_mem_old (v : str) : option str :=
+  match mem_raw v with Some r => Some (unquote_old r) | None => None end.
+
 (* Stack.set, store.save(), and what a FRESH store parses as the raw text.
    ConfigObj.write quotes the stored string again (list_values=False: only when it
    needs triple quotes AND has a newline or '#'), and the parser unwraps a
@@ -293,6 +312,14 @@ Definition file_raw (v : str) : sres :=
   end.
 Definition set_save_get (v : str) : sres :=
   match file_raw v with SOk r => SOk (unquote r) | e => e end.
+
+(* the values still damaged by save + reload: a single-line value with both kinds
+   of quote and no '#' is written in triple quotes which ConfigObj's parser removes
+   itself; if the bare value starts and ends with the same quote character,
+   unquote then removes one more pair *)
+Definition quote_residue (v : str) : bool :=
+  need_triple v && negb (memb cNL v) && negb (memb 35 v) &&
+  (hd 0 v =? last v 0) && ((hd 0 v =? 34) || (hd 0 v =? 39)).
 
 (* the values for which the ConfigObj file layer is modelled: no line separator
    other than LF, no control character other than TAB/LF, no non-ASCII white space *)
